@@ -297,3 +297,36 @@ func H_C11_created() {
 		vxrt.Assert(len(names) == 1, "C11:nothing-else-created")
 	}
 }
+
+// H_C11_longname: the default standalone file name is the whole test name (with / replaced by _),
+// also for names of 200..240 bytes, which are legal file names: two sub-tests whose names share a
+// long prefix get a file each.
+func H_C11_longname() {
+	vxrt.CI(false)
+	vxrt.YAMLAssume(true)
+	dir := vxrt.Dir()
+	c := WithConfig(Dir(dir))
+	n := []int{150, 199, 201, 230}[vxrt.Choice("name-length", 4)]
+	stem := make([]byte, n)
+	for i := range stem {
+		stem[i] = 'a' + byte(i%26)
+	}
+	json := vxrt.Bool("json")
+	sfx := ".snap"
+	if json {
+		sfx = ".snap.json"
+	}
+	for _, last := range []string{"x", "y"} {
+		name := "TestLong/" + string(stem) + last
+		t := vxNewT(name)
+		v := `"` + last + `"`
+		if json {
+			c.MatchStandaloneJSON(t, v)
+		} else {
+			c.MatchStandaloneSnapshot(t, v)
+		}
+		t.end()
+		vxrt.Assert(len(t.errors) == 0 && len(t.logs) == 1, "C11:created")
+		vxrt.Assert(vxReadFile(dir+"/TestLong_"+string(stem)+last+"_1"+sfx) == v, "C11:standalone-name-is-the-test-name")
+	}
+}
